@@ -39,6 +39,8 @@ func main() {
 		liveMain(os.Args[2:])
 	case "cols":
 		colsMain(os.Args[2:])
+	case "req":
+		reqMain(os.Args[2:])
 	default:
 		fmt.Fprintf(os.Stderr, "unknown family %q\n", os.Args[1])
 		os.Exit(2)
